@@ -163,6 +163,8 @@ def extra_tie(pid, cfg, exe, chk, cases, seed, violations, broken, res, per_chun
         n += 1
         if P.res_kind(P.res_line(il)) == 'panic' and not cfg.get('crash_is_violation'):
             continue        # a panic is a C01/C09/C10 matter; there is no result to compare here
+        if P.res_kind(P.res_line(il)) == 'panic' and impl_only:
+            violations.append({'kind': 'impl-oracle', 'what': 'parse panicked: ' + (P.res_line(il) or '')[:200], 'case': info, 'concrete': True})
         for f in cfg.get('impl_checks', ()):
             for msg in f(il, txt):
                 violations.append({'kind': 'impl-oracle', 'what': msg, 'case': info, 'concrete': True})
@@ -486,10 +488,46 @@ def sp_dbg_build(then):
         return res
     return f
 
+ALL3 = [['rox-std'], [], ['rox-positions']]
+FEATURE_GENS_QUICK = [['model', 400, 15], ['lexedge', 1], ['entity-boundary', 1], ['manyents', 1], ['manyattrs', 1], ['entities', 3]]
+FEATURE_GENS_THOROUGH = [['model', 5000, 15], ['lexedge', 1], ['entity-boundary', 1], ['entities', 12], ['manyents', 1], ['manyattrs', 1], ['exotic', 40],
+                         ['sizes', 1], ['mut', 2000, 300], ['fixtures', 4000]]
+# how each property is decided under the crate's other feature sets: 'tie' = the same comparison with the
+# model and the same oracles; 'impl' = its implementation-only checks (the API dump of a build without
+# `positions` has no ranges, so it is not compared with the model's); C13 needs `positions`
+FEATURE_PLAN = {
+    'C01': ('tie', ALL3), 'C02': ('tie', ALL3), 'C03': ('tie', ALL3), 'C04': ('tie', ALL3), 'C05': ('tie', ALL3), 'C06': ('tie', ALL3),
+    'C07': ('tie', ALL3), 'C08': ('tie', ALL3), 'C09': ('tie', ALL3), 'C10': ('impl', ALL3), 'C11': ('impl', ALL3), 'C12': ('lk', ALL3),
+    'C13': ('tie', [['rox-positions']]), 'C14': ('tie', ALL3), 'C15': ('tie', ALL3), 'C16': ('tie', ALL3), 'C17': ('impl', ALL3), 'C18': ('tie', ALL3),
+}
+# documents with 2^16 (+-1) children / fragments / references / lines ...: too large for the model's
+# list-based tokenizer, so they go through the implementation-only checks and oracles
+BIG_IMPL = {'C01': ('quick', 'thorough'), 'C10': ('quick', 'thorough'), 'C02': ('thorough',), 'C11': ('thorough',), 'C17': ('thorough',),
+            'C09': ('thorough',), 'C14': ('thorough',), 'C18': ('thorough',)}
+
+def generic_extra(pid, cfg, tier, seed, exe, chk, violations, broken, notes):
+    import props as P
+    res = {}
+    fp = FEATURE_PLAN.get(pid)
+    if fp:
+        mode, sets = fp
+        c2 = cfg
+        if mode == 'lk':
+            c2 = dict(cfg, observable=P.obs_api(['LK', 'AE']), oracles=())
+        r = sp_feature_tie(sets, FEATURE_GENS_QUICK, FEATURE_GENS_THOROUGH, impl_only=(mode == 'impl'))(pid, c2, tier, seed, exe, chk, violations, broken, notes)
+        res['evaluations'] = res.get('evaluations', 0) + r.get('evaluations', 0)
+        res['feature_set_evaluations'] = r.get('evaluations', 0)
+    if tier in BIG_IMPL.get(pid, ()):
+        r = {'evaluations': 0, 'extra_distinct': 0}
+        cases = chk.gen_cases(exe, ['sizes-big', 1], seed)
+        extra_tie(pid, cfg, exe, chk, cases, seed, violations, broken, r, per_chunk=2, label='document with 2^16 (+-1) items', impl_only=True)
+        res['evaluations'] = res.get('evaluations', 0) + r.get('evaluations', 0)
+        res['big_document_evaluations'] = r.get('evaluations', 0)
+    return res
+
 SPECIALS = {
     'scale_parse': sp_dbg_build(sp_scale(False)),
-    'scale_api': chain(sp_scale(True), sp_verdict('crossattr', [['model', 300, 0], ['ns', 1]], [['model', 2000, 0], ['ns', 5]], 'impl-oracle'),
-                       sp_feature_tie([['rox-std'], []], [['model', 400, 10], ['lexedge', 1]], [['model', 4000, 10], ['lexedge', 1], ['exotic', 30]], impl_only=True)),
+    'scale_api': chain(sp_scale(True), sp_verdict('crossattr', [['model', 300, 0], ['ns', 1]], [['model', 2000, 0], ['ns', 5]], 'impl-oracle')),
     'ns_scale': sp_ns_scale,
     'hoist': sp_verdict('hoist', [['model', 3000, 0]], [['model', 40000, 0]], 'impl-oracle',
                         also=sp_gen_tie([['entities', 8], ['manyents', 1]], [['entities', 32], ['manyents', 1]])),
@@ -499,16 +537,14 @@ SPECIALS = {
     'entities': chain(sp_gen_tie([['entities', 8], ['entity-boundary', 1]], [['entities', 32], ['entity-boundary', 1]]),
                       sp_ns_edge([(70000, 'many-refs', 'ok')])),
     'shift': sp_verdict('shift', [M], [MT, ['mut', 5000, 400]], 'impl-oracle',
-                        also=sp_verdict('shapes', [M, ['fixtures', 4000], ['longattr', 1]], [MT, ['fixtures', 20000], ['longattr', 1]], 'impl-oracle')),
+                        also=sp_verdict('shapes', [M, ['fixtures', 4000], ['longattr', 1], ['sizes', 2]], [MT, ['fixtures', 20000], ['longattr', 1], ['sizes', 2], ['sizes-big', 1]], 'impl-oracle')),
     'errshift': sp_verdict('shift', [['model', 1500, 40], ['mut', 1500, 300]], [['model', 20000, 40], ['mut', 20000, 400]], 'impl-oracle',
-                           also=chain(sp_gen_tie([['exotic', 10]], [['exotic', 100]]), sp_tp_huge,
-                                      sp_feature_tie([['rox-std'], []], [['model', 500, 30], ['lexedge', 1], ['exotic', 10]],
-                                                     [['model', 5000, 30], ['lexedge', 1], ['exotic', 60], ['mut', 3000, 300]]))),
-    'limits': sp_verdict('limits', [M, ['mut', 500, 300], ['entities', 6], ['limitedge', 1]], [MT, ['mut', 10000, 400], ['entities', 16], ['limitedge', 1]], 'impl-oracle'),
+                           also=chain(sp_gen_tie([['exotic', 10]], [['exotic', 100]]), sp_tp_huge)),
+    'limits': sp_verdict('limits', [M, ['mut', 500, 300], ['entities', 6], ['limitedge', 1], ['sizes', 1]], [MT, ['mut', 10000, 400], ['entities', 16], ['limitedge', 1], ['sizes', 1]], 'impl-oracle'),
     'dtdpairs': chain(sp_verdict('dtdpairs', [['limitedge', 1]], [['limitedge', 1]], 'impl-oracle'),
                       sp_verdict('dtdpairs', [['model', 2000, 20], ['mut', 1000, 400], ['enum', 2, 0], ['lexedge', 1]],
                                  [['model', 30000, 20], ['mut', 20000, 1000], ['enum', 3, 0], ['fixtures', 20000], ['lexedge', 1]], 'impl-oracle', limits=True),
-                      sp_verdict('dtdpairs', [['blocktext', 1], ['longattr', 1]], [['blocktext', 2], ['longattr', 1]], 'impl-oracle'),
+                      sp_verdict('dtdpairs', [['blocktext', 1], ['longattr', 1], ['sizes', 2]], [['blocktext', 2], ['longattr', 1], ['sizes', 2], ['sizes-big', 1]], 'impl-oracle'),
                       sp_verdict('lxmlsum', [['model', 1500, 0], ['lexedge', 1]], [['model', 20000, 0], ['lexedge', 1], ['fixtures', 20000]], 'impl-oracle')),
     'ord': sp_ord,
     'features': sp_features,
@@ -519,12 +555,10 @@ SPECIALS = {
                          sp_gen_tie([['blocktext', 1]], [['blocktext', 2]], per_chunk=1)),
     'markup': sp_gen_tie([['exotic', 10], ['entity-boundary', 1]], [['exotic', 100], ['entity-boundary', 1]]),
     'storage': chain(sp_gen_tie([['pieces2-text', 2], ['pieces2-attr', 2], ['exotic', 10]], [['pieces2-text', 3], ['pieces2-attr', 3], ['exotic', 100]]),
-                     sp_verdict('apiborrow', [['model', 1500, 10], ['ns', 1], ['lexedge', 1], ['entities', 4], ['blocktext', 1], ['longattr', 1]],
-                                [['model', 20000, 10], ['ns', 10], ['lexedge', 1], ['entities', 16], ['fixtures', 20000], ['blocktext', 2], ['longattr', 1]], 'impl-oracle'),
+                     sp_verdict('apiborrow', [['model', 1500, 10], ['ns', 1], ['lexedge', 1], ['entities', 4], ['blocktext', 1], ['longattr', 1], ['sizes', 2]],
+                                [['model', 20000, 10], ['ns', 10], ['lexedge', 1], ['entities', 16], ['fixtures', 20000], ['blocktext', 2], ['longattr', 1], ['sizes', 2], ['sizes-big', 1]], 'impl-oracle'),
                      sp_gen_tie([['blocktext', 1], ['longattr', 1]], [['blocktext', 2], ['longattr', 1]], per_chunk=1)),
     'lookups': chain(sp_gen_tie([['ns', 3]], [['ns', 40]]),
                      sp_verdict('crossattr', [['ns', 1], ['model', 300, 0], ['entity-boundary', 1]], [['ns', 5], ['model', 2000, 0], ['entity-boundary', 1]], 'impl-oracle')),
-    'tree': chain(sp_gen_tie([['entity-boundary', 1], ['entities', 4]], [['entity-boundary', 1], ['entities', 32]]),
-                  sp_feature_tie([['rox-std'], []], [['model', 600, 10], ['entity-boundary', 1], ['entities', 4]],
-                                 [['model', 6000, 10], ['entity-boundary', 1], ['entities', 16], ['fixtures', 4000]])),
+    'tree': sp_gen_tie([['entity-boundary', 1], ['entities', 4]], [['entity-boundary', 1], ['entities', 32]]),
 }
